@@ -4,19 +4,24 @@ import (
 	"fmt"
 	"testing"
 
-	"pgregory.net/rapid"
+	"github.com/apmckinlay/gsuneido/compile"
 )
 
-func TestDbgC29(t *testing.T) {
-	n := 0
-	rapid.Check(t, func(t *rapid.T) {
-		root := genProgram(t)
-		want, _, d := runModel(root)
-		if d == "" && (want.exc == "<cantcall>") {
-			n++
-			if n%25 == 0 {
-				fmt.Println(renderProgram(root), "=>", want)
-			}
-		}
-	})
+func TestDbgFold(t *testing.T) {
+	v := compile.Constant("10000000000000000")
+	fmt.Printf("%T %v\n", v, v)
+	for _, s := range []string{
+		`function (a, b) { a $ b }`,
+		`function (a, b) { (a) $ b $ b }`,
+		`function (a, b) { 10000000000000000 $ b }`,
+		`function (a, b) { (10000000000000000) $ b $ b }`,
+		`function (a, b) { x = 10000000000000000; x }`,
+		`function (a, b) { 10000000000000000 }`,
+		`function (a, b) { 10000000000000000 $ "" }`,
+		`function (a, b) { 1e16 $ "" }`,
+		`function (a, b) { a + 0 }`,
+	} {
+		r := compileAndCall(s, v, compile.Constant(`""`))
+		fmt.Printf("%s => %v  %T\n", s, r, r.v)
+	}
 }
